@@ -9,6 +9,8 @@ out="${1:-/tmp/rerun_seeded.log}"
 for d in /verif/seeded/*/; do
   id=$(basename "$d")
   prop=${id%%-*}
+  # ONLY="C18 C08" restricts the regression to the seeded changes of those properties
+  if [ -n "${ONLY:-}" ] && ! echo " $ONLY " | grep -q " $prop "; then continue; fi
   props=$(python3 - "$d" "$prop" <<'PY'
 import json,re,sys
 d,prop=sys.argv[1],sys.argv[2]
